@@ -57,6 +57,11 @@ ComposeExpand(p, sh4) ==
   {Case("Sprintf", f, <<RShape(sh, TRStr(2, r))>>, <<>>) : f \in Fmts, sh \in RShapes}
   \cup (IF sh4 # 3 THEN {} ELSE
   {Case("Sprintf", Fv, <<RShape(sh, TRBytes(2, r))>>, <<>>) : sh \in RShapes \ {"tslice", "tmapkey", "tmapval"}}
+  \* RedactableBytes under the byte-string verbs, nested in untyped and statically typed containers
+  \cup {Case("Sprintf", f, <<RShape(sh, TRBytes(2, r))>>, <<>>) : f \in {Fs, F5q, Fm8x}, sh \in {"slice", "structE", "structu", "ptr"}}
+  \cup {Case("Sprintf", f, <<x>>, <<>>) : f \in {Fv, Fs, F5q, Fm8x},
+                                         x \in {TTSlice(30, <<TRBytes(2, r), TRBytes(3, <<107>>)>>), TTArray(30, <<TRBytes(2, r), TRBytes(3, <<107>>)>>),
+                                                TTMap(30, <<TRStr(3, <<107>>), TRBytes(2, r)>>)}}
   \cup {Case("Sprint", <<>>, <<TRStr(2, r)>>, <<>>)}
   \* an empty unsafe operand right before the redactable; Go-syntax printing of typed containers of redactables
   \cup {Case("Sprintf", Fs \o Fv, <<TStr(8, <<>>), TRStr(2, r)>>, <<>>), Case("Sprint", <<>>, <<TStr(8, <<>>), TRStr(2, r)>>, <<>>)}
@@ -102,6 +107,9 @@ C08Holds(k, r) ==
         /\ out = k.ts[1].b                                               \* Sprint(Sprint(a)) = Sprint(a), joined ones too
         /\ Redact(out) = Redact(k.ts[1].b)
   \* formatting several redactables = concatenation with the literals
+  \* typed containers of RedactableBytes: the redactable appears unchanged, whatever the verb
+  /\ (Len(k.ts) = 1 /\ k.ts[1].k \in {"tslice", "tarray", "tmap"} /\ \E i \in 1..Len(k.ts[1].xs) : k.ts[1].xs[i].k = "rbytes") =>
+        \E i \in 0..(Len(out) - Len(r0)) : SubSeq(out, i + 1, i + Len(r0)) = r0
   /\ (Len(k.ts) = 2 /\ k.ts[1].k = "string") => out = k.ts[2].b                   \* the empty operand adds nothing
   /\ (Len(k.ts) = 2 /\ k.ts[1].k = "rstring") =>
                         /\ out = <<120>> \o k.ts[1].b \o <<121>> \o k.ts[2].b \o <<122>>
